@@ -12,9 +12,11 @@ package nsqd
 // Proved from an arbitrary state of the factory and an arbitrary clock value: an id is returned
 // only if it is strictly above every id handed out before (in lock order), and then it becomes
 // the new high-water mark; on error the high-water mark is untouched and no id is returned.
+//@ ghost lastIssued guid
 //@ func (f *guidFactory) NewGUID() (guid, error)
 //@   props C12
 //@   arith bv64
+//@   onreturn result1 == nil ==> lastIssued := result0
 //@   requires f != nil
 //@   ensures[fresh] result1 == nil ==> result0 == atunlock(f.lastID) && result0 > atlock(f.lastID)
 //@   ensures[no-reuse-on-error] result1 != nil ==> atunlock(f.lastID) == atlock(f.lastID) && result0 == 0
@@ -44,3 +46,21 @@ package nsqd
 //@   ensures[digit15] result[15] == hexdigit(fmod(fmod(fdiv(g, 1), 256), 16))
 //@   ensures[hexchars] forall k int :: {result[k]} 0 <= k && k < 16 ==> (48 <= result[k] && result[k] <= 57) || (97 <= result[k] && result[k] <= 102)
 //@   modifies
+
+//@ pred isHexOf(h MessageID, g guid) := true &&
+//@      h[0] == hexdigit(fdiv(fmod(fdiv(g, 72057594037927936), 256), 16)) && h[1] == hexdigit(fmod(fmod(fdiv(g, 72057594037927936), 256), 16)) &&
+//@      h[2] == hexdigit(fdiv(fmod(fdiv(g, 281474976710656), 256), 16)) && h[3] == hexdigit(fmod(fmod(fdiv(g, 281474976710656), 256), 16)) &&
+//@      h[4] == hexdigit(fdiv(fmod(fdiv(g, 1099511627776), 256), 16)) && h[5] == hexdigit(fmod(fmod(fdiv(g, 1099511627776), 256), 16)) &&
+//@      h[6] == hexdigit(fdiv(fmod(fdiv(g, 4294967296), 256), 16)) && h[7] == hexdigit(fmod(fmod(fdiv(g, 4294967296), 256), 16)) &&
+//@      h[8] == hexdigit(fdiv(fmod(fdiv(g, 16777216), 256), 16)) && h[9] == hexdigit(fmod(fmod(fdiv(g, 16777216), 256), 16)) &&
+//@      h[10] == hexdigit(fdiv(fmod(fdiv(g, 65536), 256), 16)) && h[11] == hexdigit(fmod(fmod(fdiv(g, 65536), 256), 16)) &&
+//@      h[12] == hexdigit(fdiv(fmod(fdiv(g, 256), 256), 16)) && h[13] == hexdigit(fmod(fmod(fdiv(g, 256), 256), 16)) &&
+//@      h[14] == hexdigit(fdiv(fmod(fdiv(g, 1), 256), 16)) && h[15] == hexdigit(fmod(fmod(fdiv(g, 1), 256), 16))
+
+// A topic hands out only ids that its factory issued successfully: on a generator error it waits and
+// retries (partial correctness: it never fabricates or reuses an id).
+//@ immutable Topic.idFactory, Topic.nsqd, Topic.name
+//@ func (t *Topic) GenerateID() MessageID
+//@   props C12
+//@   requires t != nil && t.idFactory != nil && t.nsqd != nil
+//@   ensures[issued] isHexOf(result, lastIssued)
